@@ -62,6 +62,8 @@ pub enum Op {
     Send2(u8),
     /// update_topic: max topic size = server default
     SetMaxDefault,
+    /// send n fresh messages to a second, unlimited topic of the same stream (created on first use)
+    SendOther(u8),
 }
 
 impl Op {
@@ -82,6 +84,7 @@ impl Op {
             Op::Store(o) => format!("O{o}"),
             Op::Send2(n) => format!("T{n}"),
             Op::SetMaxDefault => "Zdef".into(),
+            Op::SendOther(n) => format!("X{n}"),
         }
     }
 }
@@ -483,6 +486,39 @@ impl World {
             Op::Send2(n) => {
                 let (msgs, result) = self.send_to(2, None, *n as usize);
                 StepOut::Sent { msgs, result }
+            }
+            Op::SendOther(n) => {
+                // topic 2 of stream 1: journalled creation through the TCP handler, then a plain append
+                let shared = self.node.shared();
+                let root = self.node.root.clone();
+                let exists = self.node.block_on(async {
+                    let system = shared.read().await;
+                    system.find_topic(&root, &sid(), &Identifier::numeric(2).unwrap()).is_ok()
+                });
+                if !exists {
+                    if self.admin.is_none() {
+                        self.admin = Some(self.node.tcp_root_client());
+                    }
+                    let client = self.admin.as_ref().unwrap();
+                    let r = self.node.try_block_on(async {
+                        client.create_topic(&sid(), "t2", 1, CompressionAlgorithm::None, None, Some(2), IggyExpiry::NeverExpire, MaxTopicSize::Unlimited).await.map(|_| ())
+                    });
+                    if let Err(e) = self.flatten(r) {
+                        return StepOut::Done(Err(format!("creating the second topic failed: {e}")));
+                    }
+                }
+                let mut msgs = Vec::new();
+                for _ in 0..*n {
+                    self.seq += 1;
+                    msgs.push(Message::new(Some(9000 + self.seq as u128), Bytes::from(format!("other-{:04}", self.seq).into_bytes()), None));
+                }
+                let shared = self.node.shared();
+                let root = self.node.root.clone();
+                let r = self.node.try_block_on(async move {
+                    let system = shared.read().await;
+                    system.append_messages(&root, sid(), Identifier::numeric(2).unwrap(), Partitioning::partition_id(1), msgs, None).await
+                });
+                StepOut::Done(self.flatten(r))
             }
             Op::SendIds(ids) => {
                 let (msgs, result) = self.send_to(1, Some(ids), ids.len());
